@@ -37,6 +37,9 @@ def run(ctx: Ctx) -> Report:
     rep = Report()
     c16.run_mc(ctx, rep)
     lc = c16.law_cases(ctx, masked=False) + c16.law_cases(ctx, masked=True)[::3] + cont_cases(ctx)
+    # parameters with a leading batch dimension: every method row-wise
+    from .. import drive_laws as dl
+    lc += [("batched", (k, ctx.rng.randrange(10 ** 6))) for k in dl.BATCHED_KINDS for _ in range(ctx.pick(2, 6))]
     evs = [c16.record_law(c) for c in lc]
     cases = [{"law": [c[0], list(c[1])]} for c in lc]
     c16.judge(ctx, rep, "C15", evs, cases, "laws")
@@ -49,6 +52,11 @@ def run(ctx: Ctx) -> Report:
 
 
 def replay(ctx: Ctx, driver: str, case: dict) -> Report:
+    if case["law"][0] == "batched":
+        rep = Report()
+        evs = [c16.record_law(("batched", tuple(case["law"][1])))]
+        c16.judge(ctx, rep, "C15", evs, [case], "replay")
+        return rep
     if case["law"][0] == "cont":
         rep = Report()
         kind, params, keys = case["law"][1]
